@@ -93,6 +93,110 @@ def stmt_events(stmts):
     return out
 
 
+def _fsspec_classify(call):
+    name, base = _call_name(call)
+    if name == "open" and base == "fsspec":
+        return "fsspec_open"
+    if name == "open" and base is None:
+        return "open"
+    return _classify(call)
+
+
+def _expr_events_with(node, classify):
+    out = []
+    if node is None:
+        return out
+    if isinstance(node, ast.Call):
+        out += _expr_events_with(node.func, classify)
+        for a in node.args:
+            out += _expr_events_with(a, classify)
+        for k in node.keywords:
+            out += _expr_events_with(k.value, classify)
+        c = classify(node)
+        if c:
+            out.append(c)
+        return out
+    for ch in ast.iter_child_nodes(node):
+        if isinstance(ch, (ast.expr, ast.keyword, ast.comprehension)):
+            out += _expr_events_with(ch, classify)
+    return out
+
+
+def control_events(stmts):
+    """like stmt_events, but the control structure is part of the record: `if:<test>`, `except:<type>`,
+    `raise:<exception>`, `return` (used for the fsspec block, whose guards matter)"""
+    out = []
+    for st in stmts:
+        if isinstance(st, (ast.FunctionDef, ast.AsyncFunctionDef, ast.ClassDef)):
+            continue
+        if isinstance(st, ast.With):
+            for it in st.items:
+                out += _expr_events_with(it.context_expr, _fsspec_classify)
+            out += control_events(st.body)
+        elif isinstance(st, ast.If):
+            out += _expr_events_with(st.test, _fsspec_classify) + ["if:" + ast.unparse(st.test)] + control_events(st.body)
+            if st.orelse:
+                out += ["else"] + control_events(st.orelse)
+        elif isinstance(st, ast.Try):
+            out += control_events(st.body)
+            for h in st.handlers:
+                out += ["except:" + (ast.unparse(h.type) if h.type is not None else "*")] + control_events(h.body)
+            out += control_events(st.orelse) + control_events(st.finalbody)
+        elif isinstance(st, ast.Raise):
+            exc = st.exc
+            if isinstance(exc, ast.Call):
+                out += _expr_events_with(exc, _fsspec_classify)
+                exc = exc.func
+            out.append("raise:" + (ast.unparse(exc) if exc is not None else ""))
+        elif isinstance(st, ast.Return):
+            out += _expr_events_with(st.value, _fsspec_classify) + ["return"]
+        elif isinstance(st, (ast.For, ast.While)):
+            out += ["loop"] + control_events(st.body) + control_events(st.orelse)
+        else:
+            out += _expr_events_with(st, _fsspec_classify)
+    return out
+
+
+def file_exprs(fn):
+    """which file does each check / each open look at: the assignments to path_fc / val_path, the argument of every
+    check_overwrite(...) and the first argument + mode of every builtin open(...), in source order"""
+    out = []
+    for node in ast.walk(fn):
+        pass
+    def visit(stmts):
+        for st in stmts:
+            if isinstance(st, ast.If) and "fsspec_support" in ast.unparse(st.test):
+                continue
+            if isinstance(st, ast.Assign) and len(st.targets) == 1 and isinstance(st.targets[0], ast.Name) and st.targets[0].id in ("path_fc", "val_path"):
+                out.append(ast.unparse(st))
+            for sub in ast.walk(st) if not isinstance(st, (ast.If, ast.For, ast.While, ast.With, ast.Try, ast.FunctionDef)) else []:
+                if isinstance(sub, ast.Call):
+                    name, base = _call_name(sub)
+                    if name == "check_overwrite" and base is None:
+                        out.append("check:" + ", ".join(ast.unparse(a) for a in sub.args))
+            if isinstance(st, ast.With):
+                for it in st.items:
+                    for sub in ast.walk(it.context_expr):
+                        if isinstance(sub, ast.Call):
+                            name, base = _call_name(sub)
+                            if name == "open" and base is None:
+                                out.append("open:" + ", ".join(ast.unparse(a) for a in sub.args))
+                visit(st.body)
+            elif isinstance(st, ast.If):
+                visit(st.body)
+                visit(st.orelse)
+            elif isinstance(st, (ast.For, ast.While)):
+                visit(st.body)
+            elif isinstance(st, ast.Try):
+                visit(st.body)
+                for h in st.handlers:
+                    visit(h.body)
+            elif isinstance(st, ast.FunctionDef):
+                visit(st.body)
+    visit(fn.body)
+    return out
+
+
 def _find(nodes, kind, name):
     for n in nodes:
         if isinstance(n, kind) and getattr(n, "name", None) == name:
@@ -210,6 +314,36 @@ def generate(problems):
         else:
             problems.append("SaveOrder: assignment to pdir not found in the 'c' block of Path.__init__")
 
+    # the fsspec block of save(): effect steps WITH their guards
+    fs_if = [st for st in save.body if isinstance(st, ast.If) and "fsspec_support" in ast.unparse(st.test)]
+    fsspec_steps = control_events(fs_if[0].body) if len(fs_if) == 1 else []
+    if len(fs_if) != 1:
+        problems.append("SaveOrder: `if fsspec_support` block not found in save()")
+    # position of the block: after the format check, before Path(mode='fc')
+    pos = [("fsspec" if (isinstance(st, ast.If) and "fsspec_support" in ast.unparse(st.test)) else e)
+           for st in save.body for e in (["fsspec"] if (isinstance(st, ast.If) and "fsspec_support" in ast.unparse(st.test)) else stmt_events([st]) if not (isinstance(st, ast.If) and ast.unparse(st.test) in ("not multifile", "multifile")) else ["split"])]
+
+    # Path(mode='..s..') on an fsspec path: how it probes the path
+    probe = []
+    pif = _find_if(init.body, "_skip_check and is_fsspec") if init else None
+    if pif is None:
+        problems.append("SaveOrder: fsspec block not found in Path.__init__")
+    else:
+        for sub in ast.walk(ast.Module(body=pif.body, type_ignores=[])):
+            if isinstance(sub, ast.Assign) and len(sub.targets) == 1 and isinstance(sub.targets[0], ast.Name) and sub.targets[0].id == "fsspec_mode":
+                probe.append(ast.unparse(sub))
+        for sub in ast.walk(ast.Module(body=pif.body, type_ignores=[])):
+            if isinstance(sub, ast.Try):
+                for st in sub.body:
+                    v = getattr(st, "value", None)
+                    if isinstance(v, ast.Call):
+                        probe.append(ast.unparse(v))
+
+    # every statement of save() (docstring excluded), normalised by ast.unparse
+    stmts = [ast.unparse(st) for st in save.body
+             if not (isinstance(st, ast.Expr) and isinstance(st.value, ast.Constant) and isinstance(st.value.value, str))]
+    sig = ast.unparse(save.args)
+
     body = "namespace Jap.Gen.SaveOrder\n"
     body += "def overwriteDefault : Bool := %s\n" % ("true" if dflt["overwrite"] else "false")
     body += "def multifileDefault : Bool := %s\n" % ("true" if dflt["multifile"] else "false")
@@ -220,5 +354,11 @@ def generate(problems):
     body += "def subContentSteps : List String := %s\n" % lean_str_list(sub_content)
     body += "def pathCreatableParent : String := %s\n" % lean_str(fc_parent)
     body += "def pathCreatableChecks : List String := %s\n" % lean_str_list(fc_checks)
+    body += "def fsspecSteps : List String := %s\n" % lean_str_list(fsspec_steps)
+    body += "def saveTopLevel : List String := %s\n" % lean_str_list(pos)
+    body += "def pathFsspecProbe : List String := %s\n" % lean_str_list(probe)
+    body += "def fileExprs : List String := %s\n" % lean_str_list(file_exprs(save))
+    body += "def saveSignature : String := %s\n" % lean_str(sig)
+    body += "def saveStatements : List String :=\n  [%s]\n" % ",\n   ".join(lean_str(x) for x in stmts)
     body += "end Jap.Gen.SaveOrder\n"
     write_if_changed("SaveOrder.lean", body)
